@@ -4,8 +4,9 @@
   current stake address of a validator holds stake with it, and the validator record's `staking`
   equals the locked total (plus the slash that is still postponed to the next BeginBlock).
 
-  These need the two hypotheses the code forces (known findings KF-C11-1 and KF-C11-2, see
-  OLP/Props/C11.lean) and the supply bound; they are stated as guards evaluated along the run.
+  After the repairs d8b47b0 / acb5e5c / ebb3d1d / 7abde80 no hypothesis forced by a defect is
+  left; the well-formedness hypotheses (universe, supply bound, genesis entries, duplicate-free
+  verdict lists) are stated as guards evaluated along the run.
 -/
 import OLP.Stake.Mat
 
@@ -75,20 +76,15 @@ structure Rec (U : List Addr) (s : St) : Prop where
   staking : ∀ v r, s.vals v = some r →
     r.staking = s.tot v + pendOf s v ∧ r.power = r.staking ∧ r.staking < two63
   absent : ∀ v, s.vals v = none → s.tot v = 0
-  sameAddr : ∀ v r r', s.prev v = some r' → s.vals v = some r → r.sa = r'.sa
 
-/-- what additionally holds between BeginBlock and EndBlock -/
+/-- what additionally holds between BeginBlock and EndBlock: no slash is pending -/
 structure InBlock (s : St) : Prop where
   noDelayed : ∀ k v, s.height ≤ k → s.delayed k v = none
-  zeroPrev : ∀ v r', s.prev v = some r' → r'.power ≤ 0 → s.tot v = 0
-  purgeOld : ∀ v, s.purge v < s.height
 
 /-- what additionally holds after Commit -/
 structure Boundary (s : St) : Prop where
   noDelayed : ∀ k v, s.height < k → s.delayed k v = none
   pendNonneg : ∀ v, 0 ≤ pendOf s v
-  purgeOld : ∀ v, s.purge v ≤ s.height ∧ ((s.delayed s.height v).isSome → s.purge v < s.height)
-  prevEq : s.prev = s.vals
 
 theorem rec_empty (U : List Addr) (m : Int) : Rec U (St.empty m) := by
   constructor
@@ -98,14 +94,11 @@ theorem rec_empty (U : List Addr) (m : Int) : Rec U (St.empty m) := by
   · intro v d h; simp [St.empty] at h
   · intro v r h; simp [St.empty] at h
   · intro v _; rfl
-  · intro v r r' h; simp [St.empty] at h
 
 theorem boundary_empty (m : Int) : Boundary (St.empty m) := by
   constructor
   · intro k v _; rfl
   · intro v; simp [pendOf, St.empty]
-  · intro v; simp [St.empty]
-  · rfl
 
 /-- with non-negative entries, every delegation is bounded by the validator's total -/
 theorem vd_le_tot {U : List Addr} {s : St} (h : Rec U s) (hn : NonNeg s) (v d : Addr) :
@@ -162,25 +155,14 @@ theorem rec_begin {U : List Addr} {s : St} (h : Rec U s) (hb : Boundary s) (hn :
     rw [hb.noDelayed (s.height + 1) v (by omega)]; rfl
   have hvals : ∀ v, (beginBlock s (s.height + 1)).vals v =
       match s.vals v, s.delayed s.height v with
-      | some r, some p =>
-        if purgeBlocks s v (s.height + 1) then some r
-        else some ⟨r.staking - p, powerOf (r.staking - p), r.sa⟩
+      | some r, some p => some ⟨r.staking - p, powerOf (r.staking - p), r.sa⟩
       | x, _ => x := by
     intro v
     show (match s.vals v, s.delayed (s.height + 1 - 1) v with
-      | some r, some p =>
-        if purgeBlocks s v (s.height + 1) then some r
-        else some ⟨r.staking - p, powerOf (r.staking - p), r.sa⟩
+      | some r, some p => some (⟨r.staking - p, powerOf (r.staking - p), r.sa⟩ : VRec)
       | x, _ => x) = _
     have : s.height + 1 - 1 = s.height := by omega
     rw [this]
-  -- the purge rule never refuses a postponed unstake (guarded by the block hypothesis of the
-  -- previous block, recorded in `Boundary.purgeOld`)
-  have hnb : ∀ v p, s.delayed s.height v = some p → purgeBlocks s v (s.height + 1) = false := by
-    intro v p hp
-    have := (hb.purgeOld v).2 (by rw [hp]; rfl)
-    simp only [purgeBlocks, Bool.and_eq_false_imp, decide_eq_true_eq, decide_eq_false_iff_not]
-    intro _; omega
   constructor
   · constructor
     · exact h.sup
@@ -191,9 +173,7 @@ theorem rec_begin {U : List Addr} {s : St} (h : Rec U s) (hb : Boundary s) (hn :
       rw [hvals v, hr]
       cases hd : s.delayed s.height v with
       | none => exact ⟨r, rfl, hsa⟩
-      | some p =>
-        simp only [hnb v p hd]
-        exact ⟨_, rfl, hsa⟩
+      | some p => exact ⟨_, rfl, hsa⟩
     · intro v r hr
       rw [hvals v] at hr
       rw [hpend v]
@@ -213,7 +193,7 @@ theorem rec_begin {U : List Addr} {s : St} (h : Rec U s) (hb : Boundary s) (hn :
           exact ⟨by show r0.staking = s.tot v + 0; omega, h2, h3⟩
         | some p =>
           rw [hd] at hr
-          simp only [hnb v p hd] at hr
+          simp only at hr
           have := Option.some.inj hr
           subst this
           have hp0 : pendOf s v = p := by simp [pendOf, hd]
@@ -231,32 +211,9 @@ theorem rec_begin {U : List Addr} {s : St} (h : Rec U s) (hb : Boundary s) (hn :
         rw [hv0] at hv
         cases hd : s.delayed s.height v with
         | none => rw [hd] at hv; simp at hv
-        | some p => rw [hd] at hv; simp only [hnb v p hd] at hv; simp at hv
-    · intro v r r' hp hr
-      have hp' : s.vals v = some r' := by
-        have : (beginBlock s (s.height + 1)).prev = s.prev := rfl
-        rw [this, hb.prevEq] at hp; exact hp
-      rw [hvals v, hp'] at hr
-      cases hd : s.delayed s.height v with
-      | none => rw [hd] at hr; simp only at hr; rw [← Option.some.inj hr]
-      | some p =>
-        rw [hd] at hr; simp only [hnb v p hd] at hr
-        rw [← Option.some.inj hr]
+        | some p => rw [hd] at hv; simp at hv
   · constructor
-    · intro k v hk
-      exact hb.noDelayed k v (by have : (beginBlock s (s.height + 1)).height = s.height + 1 := rfl; omega)
-    · intro v r' hp hpow
-      have hp' : s.vals v = some r' := by
-        have : (beginBlock s (s.height + 1)).prev = s.prev := rfl
-        rw [this, hb.prevEq] at hp; exact hp
-      obtain ⟨h1, h2, _⟩ := h.staking v r' hp'
-      have ht := hn.tot v
-      have hpn := hb.pendNonneg v
-      show s.tot v = 0
-      omega
-    · intro v
-      have := (hb.purgeOld v).1
-      show s.purge v < s.height + 1
-      omega
+    intro k v hk
+    exact hb.noDelayed k v (by have : (beginBlock s (s.height + 1)).height = s.height + 1 := rfl; omega)
 
 end OLP.Stake
